@@ -149,6 +149,76 @@ class StepHistories(FreshFamily):
         return '/'.join(sorted(set(labels))), len(case) > 1
 
 
+class CaseHistories(FreshFamily):
+    """All ordered histories of <= maxlen cases picked from the other (in-process) families of a property, each history in
+    its own pristine process: the full check of a case (library calls compared with the reference) is one step.  The
+    picks are fixed positions of every shard's enumeration, so the pool is deterministic; within a history every case
+    after the first sees whatever state the earlier ones left behind, and the first sees the import-time state."""
+    name = 'fresh_case_histories'
+    nontrivial_rule = 'history of two or more cases'
+    PICKS = (0, 1, 5, 37, 211)
+
+    def __init__(self, fams, per_family=8, maxlen_quick=2, maxlen_thorough=2, scan=400, name=None):
+        self.fams = [f for f in fams if isinstance(f, Family) and not getattr(f, 'fresh', False) and not getattr(f, 'no_history_pool', False)]
+        self.per_family = per_family
+        self.maxlen = {'quick': maxlen_quick, 'thorough': maxlen_thorough}
+        self.scan = scan
+        self._pool = None
+        if name:
+            self.name = name
+
+    def pool(self, tier):
+        if self._pool is None:
+            pool = []
+            for fi, f in enumerate(self.fams):
+                got = []
+                shards = list(f.shards('quick'))
+                # spread over the shards: first, last, then evenly
+                order = sorted(set([0, len(shards) - 1] + [round(k * (len(shards) - 1) / max(1, self.per_family - 1)) for k in range(self.per_family)]))
+                for si in order:
+                    head = list(itertools.islice(f.cases(shards[si], 'quick'), self.scan))
+                    for k in self.PICKS:
+                        if k < len(head) and len(got) < self.per_family:
+                            c = (fi, head[k])
+                            if c not in got:
+                                got.append(c)
+                                break
+                if len(got) < self.per_family and shards:
+                    head = list(itertools.islice(f.cases(shards[0], 'quick'), self.scan))
+                    for k in self.PICKS:
+                        if k < len(head) and (fi, head[k]) not in got and len(got) < self.per_family:
+                            got.append((fi, head[k]))
+                pool.extend(got)
+            self._pool = pool
+        return self._pool
+
+    def shards(self, tier):
+        return list(range(len(self.pool(tier))))
+
+    def cases(self, shard, tier):
+        pool = self.pool(tier)
+        n = len(pool)
+        for ln in range(1, self.maxlen[tier] + 1):
+            for rest in itertools.product(range(n), repeat=ln - 1):
+                yield tuple((self.fams[pool[i][0]].name, pool[i][1]) for i in (shard,) + rest)
+
+    def check(self, case):
+        byname = {f.name: f for f in self.fams}
+        labels = []
+        for i, (fname, c) in enumerate(case):
+            f = byname[fname]
+            if not getattr(f, '_setup_done', False):
+                f.setup()
+                f._setup_done = True
+            try:
+                r = f.check(c)
+            except Viol as v:
+                v.msg = 'case %d of history %s: %s' % (i + 1, short([list(x) for x in case], 300), v.msg)
+                raise
+            labels.append(r[0] if isinstance(r, tuple) else (r or 'ok'))
+        return '+'.join(str(x) for x in labels)[:80], len(case) > 1
+
+
 class BFSFamily:
     """Explicit-state breadth-first search.  A state is the history (tuple of events) that reaches it.
 
@@ -559,6 +629,8 @@ class Run:
                 unknown.append(v)
         for cls, (k, cnt) in known_seen.items():
             print('KNOWN-FINDING: property=%s %s [%s; %d recorded case(s) this run]' % (self.prop, k['what'], cls, cnt))
+        # smallest counterexample first (shortest history / smallest case); stable, so enumeration order breaks ties
+        unknown.sort(key=lambda v: len(json.dumps(v['case'], sort_keys=True)))
         paths = []
         seen_sig = set()
         for v in unknown:
